@@ -205,6 +205,40 @@ def check_C20(tier, seed):
     n = 360 if tier == "quick" else 4000
     forms = zipgen.generate(n, seed)
     failures, tie, st = run_zip_forms(forms, "main")
+    # the field arrays of the generated containers are public whatever the visibility of the struct's own fields: the macro
+    # reaches them as `container.field` from wherever it is invoked (another module than the struct's), for vector, slice and
+    # mutable slice; and one field may be selected more than once when read-only
+    vis_prog = """#![allow(dead_code)]
+#[macro_use] extern crate soa_derive;
+mod bodies {
+    use soa_derive::StructOfArray;
+    #[derive(StructOfArray)]
+    pub struct Body { mass: f64, pub(crate) charge: i32, pub name: u8 }
+    pub fn make() -> BodyVec { let mut v = BodyVec::new(); for i in 0..4u8 { v.push(Body { mass: i as f64, charge: -(i as i32), name: i }); } v }
+}
+fn main() {
+    let mut v = bodies::make();
+    let mut got = vec![];
+    for (m, c, n) in soa_zip!(&v, [mass, charge, name]) { got.push((*m, *c, *n)); }
+    if got != vec![(0.0, 0, 0), (1.0, -1, 1), (2.0, -2, 2), (3.0, -3, 3)] { println!("FAIL zip-vis vector"); }
+    for (m, c) in soa_zip!(&mut v, [mut mass, charge]) { *m += *c as f64; }
+    let s = v.as_slice();
+    let twice: Vec<(f64, f64)> = soa_zip!(&s, [mass, mass]).map(|(x, y)| (*x, *y)).collect();
+    if twice != vec![(0.0, 0.0), (0.0, 0.0), (0.0, 0.0), (0.0, 0.0)] { println!("FAIL zip-vis slice / same field twice: {:?}", twice); }
+    let mut sm = v.as_mut_slice();
+    for (c,) in soa_zip!(&mut sm, [mut charge]).map(|c| (c,)) { *c = 7; }
+    if v.charge != vec![7, 7, 7, 7] { println!("FAIL zip-vis mutable slice"); }
+    println!("DONE zip-vis");
+}
+"""
+    ok, out, err = probes.build_and_run("zip_visibility", vis_prog)
+    st["evaluations"] += 1
+    if not ok or "DONE" not in out:
+        first = next((l for l in err.splitlines() if l.startswith("error")), err[:200])
+        failures.append(ProbeFailure("C20:visibility:compile", f"soa_zip! over a struct with private / pub(crate) fields, invoked outside the struct's module, does not compile / run: {first}", vis_prog, "runs", "rejected"))
+    for l in out.splitlines():
+        if l.startswith("FAIL"):
+            failures.append(ProbeFailure(f"C20:visibility:{l.split()[1]}", l[:300], vis_prog, "no FAIL line", l[:300]))
 
     def widen():
         fs, _, _ = run_zip_forms(zipgen.generate(1500, seed + 1), "widen")
